@@ -1386,6 +1386,10 @@ package http2
 
 //@ func (*serverConn).handleStreams.closeStream
 //@ inline
+//@ # a stream that leaves the table is remembered as closed first, whether or not its handler is still running:
+//@ # frames that arrive for it later are then told apart from frames on a stream that was never opened (RFC 7540 5.1)
+//@ ghost@call:markClosed#1 marked = arg0
+//@ assert@call:(*Streams).Del#1 remembered: marked == arg1
 
 //@ func (*serverConn).flushStreams
 //@ inline
@@ -1408,6 +1412,7 @@ package http2
 //@ opt noframe=true
 //@ # ASSUMPTION: int64 window counters and the int stream counter do not overflow
 //@ opt noovf=true
+//@ ghost marked = 0
 //@ modifies *sc, anybytes(), family(Stream), family(HeaderField), family(FrameHeader),
 //@ |   family(Data), family(Headers), family(Priority), family(RstStream), family(Settings), family(PushPromise), family(Ping), family(GoAway), family(WindowUpdate), family(Continuation)
 //@ # ---- main loop ----
@@ -1435,6 +1440,9 @@ package http2
 //@ loop 3: invariant conn: scInv(sc)
 //@ loop 3: invariant table: tblOK(strms)
 //@ loop 3: invariant uniq: tblUniq(strms)
+//@ # every stream already visited has had exactly the difference between the new and the old initial window added
+//@ loop 3: invariant delta: forall(j, 0, rangeindex + 1, strms[j].window == entry(strms[j].window) + delta)
+//@ loop 3: invariant rest: forall(j, rangeindex + 1, len(strms), strms[j].window == entry(strms[j].window))
 //@ # ---- a new HEADERS stream closes lower idle streams ----
 //@ loop 4: invariant conn: scInv(sc)
 //@ loop 4: invariant table: tblOK(strms)
